@@ -207,7 +207,11 @@ pub fn all() -> Vec<Prop> {
             id: "C18",
             level: "exploration",
             rule: "one evaluation = 2-3 real address books receiving the same announcement batches (valid, stale, equal (version,timestamp), forged signature, altered content, duplicate key in batch, outsiders, extreme versions/timestamps) from concurrent peer tasks in different orders; every batch verdict and the final book compared with a reference map, entries re-verified independently; books compared with each other when convergence is owed; non-trivial = an entry was replaced or a batch rejected",
-            batches: |t| prim_batches("addrs", 1500, 60_000, t),
+            batches: |t| {
+                let mut b = prim_batches("addrs", 1500, 60_000, t);
+                b.push(Batch { engine: "prim", mode: "addrs-node", runs: if t == "thorough" { 20_000 } else { 400 } });
+                b
+            },
             expected_probes: || vec!["batch_rejected", "entry_replaced_by_newer", "convergence_checked"],
             components: || json!({
                 "real": ["network::gossip::ValidatorAddrsWatch / ValidatorAddrs::update (via hook H4)", "roles (NetAddress, signatures)", "crypto"],
